@@ -15,6 +15,8 @@ class Evaluator:
         self.rel = rel
         # call Val id -> {rel: python value} for calls of crate predicate functions
         self.pred_calls = pred_calls or {}
+        # Val id -> python value: loop-carried flags bound to the constant they received on the path just walked
+        self.env = {}
 
     def raw(self, site):
         # relation of arg0 to arg1
@@ -27,6 +29,8 @@ class Evaluator:
         prog = self.prog
         if v is None or depth > 12:
             return None
+        if v.id in self.env:
+            return self.env[v.id]
         k = v.kind
         if k == 'cast':
             return self.ev(v.args[0], depth + 1)
@@ -74,6 +78,9 @@ class Evaluator:
                 return self.prog.ordering.get(ORD_NAME[x[1]])
             return None
         if k == 'const':
+            inv0 = {'Less': '<', 'Equal': '=', 'Greater': '>'}
+            if v.ty and v.ty.endswith('cmp::Ordering') and isinstance(v.args[2], str) and v.args[2].split('::')[-1] in inv0:
+                return ('ord', inv0[v.args[2].split('::')[-1]])
             # Ordering constants appear as scalars when evaluated
             if v.ty and v.ty.endswith('cmp::Ordering') and v.args[0] is not None:
                 name = prog.ordering_by_val.get(v.args[0] & 0xff if v.args[0] >= 0 else v.args[0] & 0xff)
@@ -112,6 +119,8 @@ class Evaluator:
     def depends(self, v):
         for x in walk(v):
             if x.kind == 'call' and (x.id in self.by_call or x.id in self.pred_calls):
+                return True
+            if x.id in self.env:
                 return True
         return False
 
